@@ -1234,3 +1234,99 @@ func ruleBackEndsSkipNamespacesOnlyByLevel(c *core.Ctx) {
 		c.Undecided(rule, "anchor/namespace loops", 0, "none found in the back ends")
 	}
 }
+
+func init() {
+	reg("C19", ruleVariablesShadowFields)
+}
+
+// ---------------------------------------------------------------------------------------------------------------
+// SC1: in the resolution of a bare name inside a computed field, the variables introduced by enclosing `!switch`
+// patterns are consulted before the fields and computed fields of the record. In the emitted C++ (lambda parameter),
+// Python (`isinstance` binding) and MATLAB code the pattern variable is the innermost binding; if yardl resolves the
+// name to the record's field instead, the expression is typed and printed as the member in every language and the
+// value of the case is the field's, not the matched value's.
+// ---------------------------------------------------------------------------------------------------------------
+func ruleVariablesShadowFields(c *core.Ctx) {
+	const rule = "SC1"
+	c.Rule(rule, "pkg/dsl computed-field resolution of *MemberAccessExpression: the loop over the pattern variables in scope (`….Variables`) runs before the loops over the record's Fields / ComputedFields", 1)
+	p := c.Pkg("pkg/dsl")
+	if p == nil {
+		c.Undecided(rule, "anchor/pkg/dsl", 0, "package not found")
+		return
+	}
+	info := p.TypesInfo
+	n := 0
+	for _, d := range c.AllDecls() {
+		if c.DeclPkg(d) != p || d.Body == nil || c.IsTestFile(d.Pos()) {
+			continue
+		}
+		ast.Inspect(d.Body, func(m ast.Node) bool {
+			cc, ok := m.(*ast.CaseClause)
+			if !ok || len(cc.List) != 1 {
+				return true
+			}
+			if types.ExprString(cc.List[0]) != "*MemberAccessExpression" {
+				return true
+			}
+			// the sequence of collections searched, in execution order (helpers of the package followed two levels)
+			var seq []string
+			var pos []token.Pos
+			var scan func(node ast.Node, depth int)
+			scan = func(node ast.Node, depth int) {
+				ast.Inspect(node, func(k ast.Node) bool {
+					switch y := k.(type) {
+					case *ast.FuncLit:
+						return false
+					case *ast.RangeStmt:
+						if se, ok := y.X.(*ast.SelectorExpr); ok {
+							switch se.Sel.Name {
+							case "Variables", "Fields", "ComputedFields":
+								seq = append(seq, se.Sel.Name)
+								pos = append(pos, y.Pos())
+							}
+						}
+					case *ast.CallExpr:
+						if depth < 2 {
+							if fn, _ := typeutil.Callee(info, y).(*types.Func); fn != nil && fn.Pkg() == p.Types {
+								if hd := c.Decl(fn); hd != nil && hd.Body != nil && hd != d {
+									scan(hd.Body, depth+1)
+								}
+							}
+						}
+					}
+					return true
+				})
+			}
+			for _, s := range cc.Body {
+				scan(s, 0)
+			}
+			hasVar, hasField := false, false
+			for _, s := range seq {
+				if s == "Variables" {
+					hasVar = true
+				} else {
+					hasField = true
+				}
+			}
+			if !hasVar || !hasField {
+				return true // not the name-resolution site
+			}
+			n++
+			firstVar, firstField := -1, -1
+			for i, s := range seq {
+				if s == "Variables" && firstVar < 0 {
+					firstVar = i
+				}
+				if s != "Variables" && firstField < 0 {
+					firstField = i
+				}
+			}
+			c.Check(firstVar < firstField, rule, c.FuncName(d)+"/case *MemberAccessExpression", pos[firstField], "pattern variables are searched first: the innermost binding wins",
+				"the record's fields are searched before the pattern variables in scope: a `!switch` case variable with the name of a field (`int32 gain: gain * 3` on a record with a field `gain`) resolves to the field — wrong type and wrong value in every back end, and the variable is dropped as unused")
+			return true
+		})
+	}
+	if n == 0 {
+		c.Undecided(rule, "anchor/name resolution", 0, "no *MemberAccessExpression case that searches both Variables and Fields found")
+	}
+}
